@@ -41,7 +41,7 @@ PLAN = {
 
 LEVELS = {
     "C15": {"level": "exploration", "rule": RULE + "; mode B (race-stress) runs are real parallel executions under the race detector and are counted separately in coverage.race_mode_runs",
-            "text": "mode A (simulation): 2..16 client tasks run uploads to two repositories, split uploads into an open diamond, a download, label sets, a listing and the commit of a complete diamond concurrently on shared buckets, all contents drawn from a 5-value pool (heavy dedup), under the seeded scheduler; every operation must complete (no deadlock, bounded steps) and produce the result it produces alone (bundles download to their sources, the download equals the bundle, labels resolve, the commit is the merge, every split is done). Mode B (runtime detection, not simulation): the same seeded workloads with the scheduler off and real parallelism, in a -race build; a race report is a violation",
+            "text": "mode A (simulation): 2..16 client tasks run uploads to two repositories, split uploads into an open diamond, a download, label sets, a listing and the commit of a complete diamond concurrently on shared buckets, all contents drawn from a 5-value pool (heavy dedup), under the seeded scheduler; every operation must complete (no deadlock, bounded steps) and produce the result it produces alone (bundles download to their sources, the download equals the bundle, labels resolve, the commit is the merge, every split is done). A second mode-A configuration switches on the in-memory yield points of pkg/cafs. Mode B (runtime detection, not simulation): the same seeded workloads with the scheduler off and real parallelism, in a -race build; a race report is a violation",
             "note": "the scheduler's hand-offs create happens-before edges that blind the race detector across clients in mode A, hence mode B; a race found by mode B is reported with the detector's output and the seed, its replay is a re-run of that seed (not guaranteed to reproduce)",
             "components": {"real": ["pkg/core", "pkg/cafs", "pkg/storage/localfs"], "stub": STUB},
             "assumptions": []},
@@ -51,7 +51,7 @@ LEVELS = {
             "components": {"real": ["pkg/fuse mutable file system + commit", "pkg/core", "pkg/cafs", "afero OsFs staging directory"], "stub": STUB},
             "assumptions": ["one caller (the statement quantifies over programs, not schedules)"]},
     "C17": {"level": "exploration", "rule": RULE,
-            "text": "bundles built by real uploads (deep nesting, 20-60 siblings, empty and multi-leaf files, hostile names) are mounted read-only, streamed and pre-downloaded; 1..4 caller tasks (the FUSE server dispatches each kernel request on its own goroutine) issue random programs of lookup walks, getattr, opendir/readdir with 48..4096-byte buffers resumed at every returned offset, and OpenFile + ReadFile at any offset/length including at and after EOF + FlushFile + ReleaseFileHandle (now and then followed by the kernel's ForgetInode and a fresh lookup), while the scheduler interleaves the leaf reads of the streaming cafs (LRU 1-6 buffers, prefetch 0-2); a configuration adds transient blob-read failures (EIO or correct bytes). Oracle: the directory tree implied by the uploaded files. Mode B (runtime detection, not simulation): 4..8 callers with longer programs on the same mounts, scheduler off, real parallelism, -race build: a race report in the file system's request paths is a violation (requests that never reach a store call have no seam for the scheduler to interleave)",
+            "text": "bundles built by real uploads (deep nesting, 20-60 siblings, empty and multi-leaf files, hostile names) are mounted read-only, streamed and pre-downloaded; 1..4 caller tasks (the FUSE server dispatches each kernel request on its own goroutine) issue random programs of lookup walks, getattr, opendir/readdir with 48..4096-byte buffers resumed at every returned offset, and OpenFile + ReadFile at any offset/length including at and after EOF + FlushFile + ReleaseFileHandle (now and then followed by the kernel's ForgetInode and a fresh lookup), while the scheduler interleaves the leaf reads of the streaming cafs (LRU 1-6 buffers, prefetch 0-2); a configuration adds transient blob-read failures (EIO or correct bytes); another switches on the in-memory yield points of pkg/cafs (callers of a streamed mount share one leaf cache). Oracle: the directory tree implied by the uploaded files. Mode B (runtime detection, not simulation): 4..8 callers with longer programs on the same mounts, scheduler off, real parallelism, -race build: a race report in the file system's request paths is a violation (requests that never reach a store call have no seam for the scheduler to interleave)",
             "note": "the file-system methods are called directly (reflect on the unexported fsInternal field): no kernel FUSE transport; the streamed mount is given the bundle's leaf size up front (DESIGN §6 C17)",
             "components": {"real": ["pkg/fuse read-only file system + bundle_read", "pkg/core publish", "pkg/cafs reader"], "stub": STUB},
             "assumptions": ["hash verification enabled on the mount"]},
@@ -81,7 +81,7 @@ LEVELS = {
             "components": {"real": ["pkg/core purge + lock", "pebble KV"], "stub": STUB},
             "assumptions": []},
     "C12": {"level": "exploration", "rule": RULE,
-            "text": "the real diamond implementation driven through sampled interleavings of 1-3 split ids x up to 3 runs each (concurrent second runs, crashes at a chosen write and re-runs), an early committer racing the uploads, a committer crashed before its bundle descriptor and retried, and a canceller racing the commit. Oracles: at most one bundle.yaml per diamond; a commit that reports success is the one the terminal descriptor records (state done, its bundle); commits/new splits refused once the diamond is terminal; a done split cannot be rerun; the bundle is exactly the merge (C11 oracle) of the done generation of every split whose split-done landed before the winning commit was invoked (those landing during it may or may not be in). Two recorded findings (two bundles after concurrent commits / after a commit that died past its bundle descriptor is retried) are reproduced by directed scenarios and excluded from the open search",
+            "text": "the real diamond implementation driven through sampled interleavings of 1-3 split ids x up to 3 runs each (concurrent second runs, crashes at a chosen write and re-runs), an early committer racing the uploads, a committer crashed before its bundle descriptor and retried, and a canceller racing the commit. Oracles: at most one bundle.yaml per diamond; a commit that reports success is the one the terminal descriptor records (state done, its bundle); commits/new splits refused once the diamond is terminal; a done split cannot be rerun; progress: an uninterrupted run that had its split id for itself completes, an uninterrupted commit of complete splits succeeds unless a cancel got in first, a cancel that reports success is recorded; the bundle is exactly the merge (C11 oracle) of the done generation of every split whose split-done landed before the winning commit was invoked (those landing during it may or may not be in). Two recorded findings (two bundles after concurrent commits / after a commit that died past its bundle descriptor is retried) are reproduced by directed scenarios and excluded from the open search",
             "note": "decided by simulation of the implementation only; the exhaustive protocol model the quantifier also mentions is model checking, outside this technique family (DESIGN §6 C12)",
             "components": {"real": ["pkg/core diamond/split/commit/cancel/list"], "stub": STUB},
             "assumptions": ["at most one committer alive per diamond in the open search", "no commit retry once a bundle descriptor of the diamond has landed"]},
@@ -91,7 +91,7 @@ LEVELS = {
             "components": {"real": ["pkg/core diamond/split/commit/index", "pkg/cafs", "pkg/model"], "stub": STUB},
             "assumptions": ["tiny files, default or small leaf size"]},
     "C10": {"level": "fault_enumeration", "rule": RULE + "; leftovers are produced by real uploads killed at a tape-chosen write before the descriptor",
-            "text": "histories of 0..40 tiny committed bundles with semver / non-semver labels and leftovers of uploads crashed at chosen store writes (also as the newest object of the repository), squashed with retain-N 1..5 x {none, retain-tags, retain-semver-tags}; a second configuration crashes the squash itself at a chosen write and re-runs it. Oracle: the visible bundles are exactly the last N committed plus the labelled ones per option, each downloading to its content, labels exactly those of kept bundles, the most recent committed bundle always kept, the neighbouring repository byte-identical",
+            "text": "histories of 0..40 tiny committed bundles with semver / non-semver labels and leftovers of uploads crashed at chosen store writes (also as the newest object of the repository) and bundles of long-lived writers (descriptor built early, committed after younger bundles: newest by id, not by descriptor time), squashed with retain-N 1..5 x {none, retain-tags, retain-semver-tags}; a second configuration crashes the squash itself at a chosen write and re-runs it. Oracle: the visible bundles are exactly the last N committed plus the labelled ones per option, each downloading to its content, labels exactly those of kept bundles, the most recent committed bundle always kept, the neighbouring repository byte-identical",
             "note": "what happens to leftovers themselves is not asserted (they are not bundles); trusts simstore",
             "components": {"real": ["pkg/core squash/delete/list/labels/upload/download"], "stub": STUB},
             "assumptions": ["label names are chosen unambiguously semver or not"]},
@@ -101,7 +101,7 @@ LEVELS = {
             "components": {"real": ["pkg/core repo create/delete/rename/delete-files/list/download", "pkg/cafs"], "stub": STUB},
             "assumptions": ["histories of completed operations only (no leftovers)", "bundles with more than one index file (1001 files) only in the thorough tier"]},
     "C08": {"level": "exploration", "rule": RULE,
-            "text": "(a) seeded histories of set (also through prebuilt / reused Label values) / overwrite / delete / get / list (ListLabels and ListLabelsApply) / prefix-filtered list / list of versions (versioned label store: every assignment since the label was created, in order) over 2-3 repositories with prefix-related names and label names from the documented alphabet plus hostile ones, checked step by step against a map model, with the acceptance rule (an accepted name must resolve and every listing must still work) and the per-event invariant that a label operation writes only its own label object and never the metadata store; (b) 2-3 clients running set/get/delete on one label concurrently under sampled interleavings, the recorded history (event-sequence stamps) checked for linearizability against a register-with-delete model with porcupine",
+            "text": "(a) seeded histories of set (also through prebuilt / reused Label values) / overwrite / delete / get / list (ListLabels and ListLabelsApply) / prefix-filtered list / list of versions (versioned label store: every assignment since the label was created, in order) over 2-3 repositories with prefix-related names and label names from the documented alphabet plus hostile ones, checked step by step against a map model, with the acceptance rule (an accepted name must resolve and every listing must still work) and the per-event invariant that a label operation writes only its own label object and never the metadata store; (b) 2-3 clients running set/get/delete on one label concurrently under sampled interleavings, now and then also listing the repository's labels (a successful listing is a read of the label and never shows it bound to no bundle), the recorded history (event-sequence stamps) checked for linearizability against a register-with-delete model with porcupine",
             "note": "porcupine 'unknown' (time-out) is counted, never reported; trusts simstore (optionally with object versioning)",
             "components": {"real": ["pkg/core label set/get/delete/list", "pkg/model label paths"], "stub": STUB + ["bundles are seeded descriptors (labels never read bundle content)"]},
             "assumptions": ["histories of at most 10 steps, 3 clients x 4 operations"]},
@@ -121,18 +121,18 @@ LEVELS = {
             "components": {"real": ["pkg/core upload/download/list", "pkg/cafs", "pkg/model", "pkg/storage/localfs"], "stub": STUB},
             "assumptions": ["trees > 12 files use tiny files", "2000+ file trees only in the thorough tier"]},
     "C03": {"level": "fault_enumeration", "rule": RULE + "; the rot-enumerated scenario enumerates, per small object, every truncation length, one bit flip per byte, the deletion and every leaf-for-leaf replacement of every blob (count in probes.enumerated-corruptions)",
-            "text": "bit-rot fault injection at rest: for objects of 1..6 leaves one blob (leaf or root) is flipped, truncated, extended, deleted, swapped with another leaf of the same or another object, or the root's key list is dropped/duplicated/reordered; then the object is read through Read, ReadAt, WriteTo(plain) and WriteTo(io.WriterAt) with cold and warm caches, and through a full bundle download; any call that reports success must have delivered exactly the stored bytes. For small objects the single-blob corruption classes are enumerated completely",
+            "text": "bit-rot fault injection at rest: for objects of 1..6 leaves one blob (leaf or root) is flipped, truncated, extended, deleted, swapped with another leaf of the same or another object, or the root's key list is dropped/duplicated/reordered; then the object is read through Read, ReadAt, WriteTo(plain) and WriteTo(io.WriterAt) with cold and warm caches, and through a full bundle download; any call that reports success must have delivered exactly the stored bytes, and a failed WriteTo(io.WriterAt) or bundle download must not have written altered bytes into its destination (what it wrote equals the stored bytes at those offsets). For small objects the single-blob corruption classes are enumerated completely",
             "note": "a streaming sequential Read is judged as a whole (bytes handed out before the error of the same leaf are not counted as accepted); trusts simstore",
             "components": {"real": ["pkg/cafs reader/hasher", "pkg/core bundle download", "pkg/storage/localfs"], "stub": STUB},
             "assumptions": ["hash verification left at its default (on)", "one damaged blob per run"]},
     "C02": {"level": "exploration", "rule": RULE,
-            "text": "seeded exploration of histories of overlapping Puts (identical contents, shared leaves, prefixes, swapped leaves) by 1-3 clients with 1-16 parallel flushes each into one blob bucket, under all sampled interleavings of their GetAttr/Put pairs, plus a configuration where an earlier uploader leaves torn/empty blobs; keys compared with an independent RFC 7693 BLAKE2b tree implementation (itself cross-checked against Python hashlib at setup); per-event invariant: no blob is ever written with bytes other than those its key stands for",
+            "text": "seeded exploration of histories of overlapping Puts (identical contents, shared leaves, prefixes, swapped leaves) by 1-3 clients with 1-16 parallel flushes each into one blob bucket, under all sampled interleavings of their GetAttr/Put pairs, plus a configuration where an earlier uploader leaves torn/empty blobs; keys compared with an independent RFC 7693 BLAKE2b tree implementation (itself cross-checked against Python hashlib at setup); per-event invariant: no blob is ever written with bytes other than those its key stands for; at the moment a Put returns success every blob of its content is in the store; a configuration fails one blob write of a Put with a store error and repeats the Put through the same Fs",
             "note": "trusts the harness BLAKE2b (cross-checked against hashlib and against cafs at setup) and simstore; sampled, not exhaustive",
             "components": {"real": ["pkg/cafs writer/hasher/check_blob"], "stub": STUB},
             "assumptions": ["leaf sizes 64 B..64 KiB in this scenario (C01 covers the large ones)", "torn-write repair is only asserted for stores that report CRC32C (as GCS does)"]},
     "C01": {"level": "exploration", "rule": RULE,
             "components": {"real": ["pkg/cafs writer/reader/hasher/freelists/LRU/prefetch"], "stub": STUB},
-            "text": "seeded exploration of (content length x leaf size x source chunking x flush concurrency x read programs x prefetch/cache settings x interleavings of leaf Gets among concurrent readers and prefetchers); read programs mix sequential Read, ReadAt, WriteTo(plain / io.WriterAt), several ReadAt calls on one reader, and a sequential reader that pauses in mid-stream while ReadAt calls go through the same cafs (shared leaf cache and buffer pool, 1..8 buffers); every returned byte compared with the source; separate configuration with transient Get failures where a read may fail but never return other bytes",
+            "text": "seeded exploration of (content length x leaf size x source chunking x flush concurrency x read programs x prefetch/cache settings x interleavings of leaf Gets among concurrent readers and prefetchers); read programs mix sequential Read, ReadAt, WriteTo(plain / io.WriterAt), several ReadAt calls on one reader, and a sequential reader that pauses in mid-stream while ReadAt calls go through the same cafs (shared leaf cache and buffer pool, 1..8 buffers); every returned byte compared with the source; one configuration switches on the in-memory yield points compiled into pkg/cafs (build tag verif) so that a reader holding a pinned leaf buffer can be overtaken by other readers' cache insertions and evictions; upload payloads are read when a Put lands, not when it is issued (a buffer recycled under an upload in flight is stored recycled); separate configuration with transient Get failures where a read may fail but never return other bytes",
             "note": "trusts simstore as a faithful GCS-contract model and the Go runtime; sampled, not exhaustive",
             "assumptions": ["object store behaves per the GCS contract modelled by simstore", "interleavings are controlled at store-call granularity",
                             "objects <= ~6 leaves; 5 MiB leaves only in the thorough tier"]},
